@@ -12,6 +12,7 @@ import (
 	"github.com/foxboron/go-uefi/authenticode"
 	"github.com/foxboron/go-uefi/efi/signature"
 	"github.com/foxboron/go-uefi/efivar"
+	"github.com/foxboron/go-uefi/pkcs7"
 )
 
 // sched — property C19: read-only operations are pure, repeatable and safe to
@@ -74,6 +75,9 @@ func (e *schedEngine) Plan(seed uint64, tier string) int {
 var scImageOps = []string{"Hash", "Bytes", "Open", "Signatures", "Verify", "VerifyOther"}
 var scDBOps = []string{"Bytes", "Marshal", "BytesExists", "BytesExistsMiss", "SigDataExists", "Exists"}
 var scUpdateOps = []string{"Marshal", "Bytes", "DescMarshal", "DescVerify"}
+var scPkcs7Ops = []string{"Verify", "VerifyOther", "HasCertificate"}
+var scAuthcodeOps = []string{"Verify", "VerifyOther"}
+var scListOps = []string{"Bytes", "Exists", "ExistsMiss", "ExistsInList", "CmpHeader"}
 
 func (e *schedEngine) Gen(seed uint64, tier string, run int) *Trace {
 	r := NewR(seed, e.Name(), run)
@@ -86,7 +90,7 @@ func (e *schedEngine) Gen(seed uint64, tier string, run int) *Trace {
 	case "race":
 		c.Mode = "free"
 	}
-	c.Object = Pick(r, []string{"image", "image", "db", "update"})
+	c.Object = Pick(r, []string{"image", "image", "image", "db", "db", "update", "update", "pkcs7", "authcode", "list", "dbdecoded"})
 	if e.variant == "" && c.Mode == "inter" {
 		c.Object = "image" // without inserted yields only image operations contain yield points
 	}
@@ -104,9 +108,19 @@ func (e *schedEngine) Gen(seed uint64, tier string, run int) *Trace {
 			c.Signers = append(c.Signers, Pick(r, []int{0, 1, 0, 1, 4, 6}))
 		}
 		kinds = scImageOps
-	case "db":
+	case "db", "dbdecoded":
 		c.DB = r.Intn(3)
 		kinds = scDBOps
+	case "pkcs7":
+		c.Signers = []int{Pick(r, []int{0, 1, 8})}
+		kinds = scPkcs7Ops
+	case "authcode":
+		c.Image = ImgSpec{Gen: genPESpec(r.Fork("img"))}
+		c.Signers = []int{Pick(r, []int{0, 1, 9})}
+		kinds = scAuthcodeOps
+	case "list":
+		c.DB = r.Intn(3)
+		kinds = scListOps
 	case "update":
 		c.Signers = []int{r.Intn(2)}
 		kinds = scUpdateOps
@@ -282,6 +296,139 @@ func (e *schedEngine) build(c scCfg, x *X, plane *Plane) (mk func() *scObject) {
 					return scResult([]byte(fmt.Sprint(db.Exists(dbTypes[0].G, probe))), nil)
 				}
 				harnessf("sched: db op %q", op.Op)
+				return nil
+			}}
+		}
+	case "dbdecoded":
+		// a database as it comes out of the decoder
+		enc := append(refHashDB(0x21, 2+c.DB), refESLEncode([]RefList{{Type: wireX509, Size: uint32(16 + len(Pool()[0].CertDER)),
+			Sigs: []RefSig{{Owner: [16]byte{1}, Data: Pool()[0].CertDER}, {Owner: [16]byte{2}, Data: Pool()[1].CertDER}}}})...)
+		var o1 [16]byte
+		for j := range o1 {
+			o1[j] = 0xA0 + byte(j)
+		}
+		own := guidFromWire(o1[:])
+		hit := refHashDBEntry(0x21, 1)
+		return func() *scObject {
+			got, err := signature.ReadSignatureDatabase(bytes.NewReader(enc))
+			if err != nil {
+				harnessf("sched: decode: %v", err)
+			}
+			db := &got
+			probe := signature.NewSignatureList(dbTypes[0].G)
+			probe.AppendBytes(own, hit)
+			return &scObject{dumpRoot: db, do: func(op scOp) []byte {
+				switch op.Op {
+				case "Bytes":
+					return scResult(db.Bytes(), nil)
+				case "Marshal":
+					var b bytes.Buffer
+					db.Marshal(&b)
+					return scResult(b.Bytes(), nil)
+				case "BytesExists":
+					return scResult([]byte(fmt.Sprint(db.BytesExists(dbTypes[0].G, own, hit))), nil)
+				case "BytesExistsMiss":
+					return scResult([]byte(fmt.Sprint(db.BytesExists(dbTypes[1].G, own, hit))), nil)
+				case "SigDataExists":
+					return scResult([]byte(fmt.Sprint(db.SigDataExists(dbTypes[1].G, &signature.SignatureData{Owner: guidFromWire([]byte{2, 0, 0, 0, 0, 0, 0, 0, 0, 0, 0, 0, 0, 0, 0, 0}), Data: Pool()[1].CertDER}))), nil)
+				case "Exists":
+					return scResult([]byte(fmt.Sprint(db.Exists(dbTypes[0].G, probe))), nil)
+				}
+				harnessf("sched: dbdecoded op %q", op.Op)
+				return nil
+			}}
+		}
+	case "list":
+		return func() *scObject {
+			l := signature.NewSignatureList(dbTypes[0].G)
+			for i := 0; i < 3+c.DB; i++ {
+				if err := l.AppendBytes(dbOwners[i%3], dbData(i%4)); err != nil && i < 4 {
+					harnessf("sched: list setup: %v", err)
+				}
+			}
+			sub := signature.NewSignatureList(dbTypes[0].G)
+			sub.AppendBytes(dbOwners[0], dbData(0))
+			sub.AppendBytes(dbOwners[1], dbData(1))
+			return &scObject{dumpRoot: l, do: func(op scOp) []byte {
+				switch op.Op {
+				case "Bytes":
+					return scResult(l.Bytes(), nil)
+				case "Exists":
+					ok, idx := l.Exists(&signature.SignatureData{Owner: dbOwners[1], Data: dbData(1)})
+					return scResult([]byte(fmt.Sprint(ok, idx)), nil)
+				case "ExistsMiss":
+					ok, idx := l.Exists(&signature.SignatureData{Owner: dbOwners[2], Data: dbData(0)})
+					return scResult([]byte(fmt.Sprint(ok, idx)), nil)
+				case "ExistsInList":
+					return scResult([]byte(fmt.Sprint(l.ExistsInList(sub))), nil)
+				case "CmpHeader":
+					return scResult([]byte(fmt.Sprint(l.CmpHeader(sub))), nil)
+				}
+				harnessf("sched: list op %q", op.Op)
+				return nil
+			}}
+		}
+	case "pkcs7", "authcode":
+		at, err := time.Parse(time.RFC3339, c.Instant)
+		if err != nil {
+			harnessf("sched instant: %v", err)
+		}
+		pk := Pool()[c.Signers[0]%poolSize]
+		other := Pool()[7]
+		var blob, hashed []byte
+		if pv := inBubble(x.T, at.UTC(), "", func() {
+			var err error
+			if c.Object == "pkcs7" {
+				blob, err = pkcs7.SignPKCS7(pk.Key, pk.Cert, pkcs7.OIDData, []byte("content signed once, verified many times"))
+			} else {
+				img := c.Image.Bytes()
+				hashed = refHashedBytes(img)
+				blob, err = authenticode.SignAuthenticode(pk.Key, pk.Cert, bytes.NewReader(hashed), crypto.SHA256)
+			}
+			if err != nil {
+				harnessf("sched: signing: %v", err)
+			}
+		}); pv != nil {
+			panic(pv)
+		}
+		if c.Object == "pkcs7" {
+			return func() *scObject {
+				p7, err := pkcs7.ParsePKCS7(blob)
+				if err != nil {
+					harnessf("sched: ParsePKCS7: %v", err)
+				}
+				return &scObject{dumpRoot: p7, do: func(op scOp) []byte {
+					switch op.Op {
+					case "Verify":
+						ok, err := p7.Verify(pk.Cert)
+						return scResult([]byte(fmt.Sprint(ok)), err)
+					case "VerifyOther":
+						ok, err := p7.Verify(other.Cert)
+						return scResult([]byte(fmt.Sprint(ok)), err)
+					case "HasCertificate":
+						return scResult([]byte(fmt.Sprint(p7.HasCertificate(pk.Cert), p7.HasCertificate(other.Cert))), nil)
+					}
+					harnessf("sched: pkcs7 op %q", op.Op)
+					return nil
+				}}
+			}
+		}
+		return func() *scObject {
+			ac, err := authenticode.ParseAuthenticode(blob)
+			if err != nil {
+				harnessf("sched: ParseAuthenticode: %v", err)
+			}
+			rd := &SimReader{data: hashed, p: plane}
+			return &scObject{dumpRoot: ac, do: func(op scOp) []byte {
+				switch op.Op {
+				case "Verify":
+					ok, err := ac.Verify(pk.Cert, io.NewSectionReader(rd, 0, int64(len(hashed))))
+					return scResult([]byte(fmt.Sprint(ok)), err)
+				case "VerifyOther":
+					ok, err := ac.Verify(other.Cert, io.NewSectionReader(rd, 0, int64(len(hashed))))
+					return scResult([]byte(fmt.Sprint(ok)), err)
+				}
+				harnessf("sched: authcode op %q", op.Op)
 				return nil
 			}}
 		}
